@@ -230,7 +230,8 @@ def run(ctx):
             check_group(ctx, key, g, tmap, scale, FULL if si == 0 else LIGHT, "all")
         for idxs in _ed.sub_batches(ctx.rng, len(g), 6 if ctx.quick else 40):
             check_group(ctx, key, [g[i] for i in idxs], _ed.TOKEN_MAPS[ti], 1.0, LIGHT, "small")
-        check_mer(ctx, key, g, _ed.TOKEN_MAPS[ti], 2 if ctx.quick else 10)
+        # more sample sets where the three costs differ (a cost passed to the wrong parameter only shows there)
+        check_mer(ctx, key, g, _ed.TOKEN_MAPS[ti], (2 if key[1][0] == key[1][1] == key[1][2] else 12) if ctx.quick else 40)
         ctx.traces += len(g)
     ctx.extra["pairs_with_non_unique_edit_count"] = int(wide)
     if not ctx.samples:
